@@ -8,6 +8,7 @@ import Req.H2.FieldsX
 import Req.H2.WriteBlock
 import Req.H2.FrameRfc
 import Req.H3.Stream
+import Req.H3.SettingsWrite
 import Req.H2.Hpack
 import Req.H2.WriteSeq
 import Req.Driver.WireUtil
@@ -304,7 +305,9 @@ def laneH3Append : List String → String
     | none => "bad-op"
   | ["settings", dg, ec, ps] => match bool? dg, bool? ec, Req.Driver.L.C05.parsePairs ps with
     | some dg, some ec, some ps =>
-      showOpt (appendSettings { datagram := dg, extendedConnect := ec, other := ps })
+      -- round 6: the statement-by-statement writer (length loop + write loop); the length loop
+      -- iterates the map in ANOTHER order than the write loop (`h3settings_length_exact`)
+      showOpt (Req.H3.SettingsWrite.appendGo ps.reverse { datagram := dg, extendedConnect := ec, other := ps })
     | _, _, _ => "bad-op"
   | _ => "bad-op"
 end h3
@@ -395,6 +398,26 @@ def laneH3SettingsSpec : List String → String
           s!"ok {b01 s.datagram} {b01 s.extendedConnect} {showOther (sortPairs s.other)}"
       else "reject"
     | none => "bad-op"
+  | _ => "bad-op"
+
+/-- `c05h3settingsw <dg> <ec> <pairs in write order>` : the settings VALUE side of
+`h3settings_length_exact` / `h3settings_written_verdict` / `h3settings_collision_refused`:
+`len=<declared length | panic> collides=<0/1> <ok dg ec other | reject>` where the verdict is the
+DECLARATIVE `SettingsOK (writtenPairs s)` / `settingsOf (writtenPairs s)`. -/
+def laneH3SettingsW : List String → String
+  | [dg, ec, ps] => match bool? dg, bool? ec, Req.Driver.L.C05.parsePairs ps with
+    | some dg, some ec, some ps =>
+      let s : Settings := { datagram := dg, extendedConnect := ec, other := ps }
+      let l := match Req.H3.SettingsWrite.declaredLen ps.reverse s with
+        | some l => toString l
+        | none => "panic"
+      let w := Req.H3.SettingsWrite.writtenPairs s
+      let v := if SettingsOK w then
+          let s' := settingsOf w
+          s!"ok {b01 s'.datagram} {b01 s'.extendedConnect} {showOther (sortPairs s'.other)}"
+        else "reject"
+      s!"len={l} collides={b01 (decide (Req.H3.SettingsWrite.Collides s))} {v}"
+    | _, _, _ => "bad-op"
   | _ => "bad-op"
 end h3stream
 
@@ -680,6 +703,7 @@ def lanes : List (String × (List String → String)) := [
   ("c05h3stream", laneH3Stream),
   ("c05h3settingsspec", laneH3SettingsSpec),
   ("c05h3settings", laneH3Settings),
+  ("c05h3settingsw", laneH3SettingsW),
   ("c05h3append", laneH3Append),
   ("c05h3fields", laneH3Fields)
 ]
